@@ -76,8 +76,8 @@ func c31(c *Ctx) {
 		if !ok || CalleeName(&call.Call) != "quic.abs[time.Duration]" {
 			return false
 		}
-		sub, ok := call.Call.Args[0].(*ssa.Call)
-		return ok && CalleeName(&sub.Call) == "(time.Time).Sub" && Term(sub.Call.Args[0]) == "$0" && DependsOn(sub.Call.Args[1], XResultOf(0, ".Open"))
+		sub, ok := BaselineArgs(&call.Call)[0].(*ssa.Call)
+		return ok && CalleeName(&sub.Call) == "(time.Time).Sub" && Term(BaselineArgs(&sub.Call)[0]) == "$0" && DependsOn(BaselineArgs(&sub.Call)[1], XResultOf(0, ".Open"))
 	}))
 	if v, ok := c.P.ConstInt("quic.retryTokenValidityPeriod"); !ok || v != 5000000000 {
 		c.Fail("constant", "quic.retryTokenValidityPeriod = 5s (value used in the guard above)", token.NoPos, fmt.Sprintf("value %d", v))
@@ -168,7 +168,7 @@ func isArgOf(v ssa.Value, method string, idx int) bool {
 		return false
 	}
 	for _, r := range *refs {
-		if call, ok := r.(*ssa.Call); ok && CalleeName(&call.Call) == method && idx < len(call.Call.Args) && call.Call.Args[idx] == v {
+		if call, ok := r.(*ssa.Call); ok && CalleeName(&call.Call) == method && idx < len(BaselineArgs(&call.Call)) && BaselineArgs(&call.Call)[idx] == v {
 			return true
 		}
 	}
